@@ -52,6 +52,9 @@ class SimLifoQueue:
 
     def get(self, block: bool = True, timeout=None):
         s = _sched()
+        cb = getattr(self, "on_enter", None)
+        if cb is not None:
+            cb(self, block)  # the moment of the call, before anything else can run (a harness tells from it which queue object the caller had in hand)
         if s is not None:
             s.yield_point("q.get")
         if timeout is not None and timeout < 0:
